@@ -83,4 +83,8 @@ var Map zconst.LangMap = map[zconst.ZogType]map[zconst.ZogIssueCode]string{
 		zconst.IssueCodeZHTTPInvalidForm:  "Formulario no válido",
 		zconst.IssueCodeZHTTPInvalidQuery: "Parámetros de consulta no válidos",
 	},
+	// schemas built with z.CustomFunc (their type is "custom")
+	"custom": {
+		zconst.IssueCodeFallback: "Valor no es válido",
+	},
 }
